@@ -205,6 +205,7 @@ def _ob_swap_tolerance(with_tol, belief=False):
         o = I.sym('offer', lo=1, hi=U128)
         b.set('trader', 'uA', o)
         b.supply['uA'] = simp(b.supply['uA'] + o)
+        I.assume(b.supply['uA'] <= U128)      # the bank's total supply of a denom fits 128 bits
         if with_tol:
             tol = I.sym('max_slippage_atomics', hi=U128)
             cap = _cap(tol)
@@ -320,6 +321,7 @@ def _ob_stable_units(do, da):
         o = I.sym('offer', lo=1, hi=U128)
         b.set('trader', 'uA', o)
         b.supply['uA'] = simp(b.supply['uA'] + o)
+        I.assume(b.supply['uA'] <= U128)      # the bank's total supply of a denom fits 128 bits
         tol = I.sym('max_slippage_atomics', hi=U128)
         cap = _cap(tol)
         ch = Chain(I, CONTRACTS)
